@@ -1,7 +1,228 @@
 package main
 
-// Self-validation sweep (thorough tier): stored mutations must be caught.
+// Thorough tier extras: the self-validation sweep (stored in-memory mutants and
+// seeded patches must be caught) and cross-references with generic tools. The
+// sweep validates the checker; the verdict on /repo never depends on it.
+
+import (
+	"bytes"
+	"encoding/json"
+	"fmt"
+	"os"
+	"os/exec"
+	"path/filepath"
+	"sort"
+	"strings"
+	"sync"
+)
+
+type seedMeta struct {
+	Property any      `json:"property"` // string or list
+	Name     string   `json:"name"`
+	Needs    string   `json:"needs_to_manifest"`
+	CaughtBy []string `json:"caught_by,omitempty"`
+}
+
+func (m *seedMeta) props() []string {
+	switch v := m.Property.(type) {
+	case string:
+		return []string{v}
+	case []any:
+		var out []string
+		for _, x := range v {
+			if s, ok := x.(string); ok {
+				out = append(out, s)
+			}
+		}
+		return out
+	}
+	return nil
+}
 
 func runSweep(id string, spec *PropSpec, problems []string) ([]map[string]any, []string) {
-	return nil, problems
+	var out []map[string]any
+	kf, _ := loadKnown(filepath.Join(*flagVerif, "known_findings.json"))
+	// (1) stored in-memory mutants
+	mfile := filepath.Join(*flagVerif, "mutants", id+".json")
+	if ms, err := loadControls(mfile); err == nil && len(ms) > 0 {
+		res := spawnControls(id, mfile, len(ms), 6)
+		for i, r := range res {
+			e := map[string]any{"kind": "mutant", "name": ms[i].Name}
+			switch {
+			case r.Stale != "":
+				e["result"] = "skipped: no longer applies (" + r.Stale + ")"
+			case r.LoadError != "":
+				e["result"] = "mutant does not compile: " + trunc(r.LoadError, 200)
+			default:
+				n := 0
+				var ks []string
+				for _, v := range r.Violations {
+					if kf.match(id, &v) == nil {
+						n++
+						ks = append(ks, v.Rule+": "+v.Key)
+					}
+				}
+				if n > 0 {
+					e["result"] = "caught"
+					e["reported"] = ks
+				} else {
+					e["result"] = "MISSED"
+				}
+			}
+			out = append(out, e)
+		}
+	}
+	// (2) seeded patches
+	seedRoot := filepath.Join(*flagVerif, "seeded")
+	ents, _ := os.ReadDir(seedRoot)
+	type job struct {
+		dir  string
+		meta seedMeta
+	}
+	var jobs []job
+	for _, en := range ents {
+		if !en.IsDir() {
+			continue
+		}
+		d := filepath.Join(seedRoot, en.Name())
+		b, err := os.ReadFile(filepath.Join(d, "meta.json"))
+		if err != nil {
+			continue
+		}
+		var m seedMeta
+		if json.Unmarshal(b, &m) != nil {
+			continue
+		}
+		if m.Name == "" {
+			m.Name = en.Name()
+		}
+		for _, pr := range m.props() {
+			if pr == id {
+				jobs = append(jobs, job{d, m})
+			}
+		}
+	}
+	res := make([]map[string]any, len(jobs))
+	sem := make(chan struct{}, 4)
+	var wg sync.WaitGroup
+	for i, j := range jobs {
+		wg.Add(1)
+		go func(i int, j job) {
+			defer wg.Done()
+			sem <- struct{}{}
+			defer func() { <-sem }()
+			res[i] = runSeed(id, j.dir, j.meta, kf)
+		}(i, j)
+	}
+	wg.Wait()
+	out = append(out, res...)
+	sort.SliceStable(out, func(i, j int) bool { return fmt.Sprint(out[i]["name"]) < fmt.Sprint(out[j]["name"]) })
+	return out, problems
+}
+
+// runSeed applies a seeded patch to a scratch copy of the repository (outside
+// /repo and /verif, removed afterwards) and runs the property's rules on it.
+func runSeed(id, dir string, m seedMeta, kf *KnownFile) map[string]any {
+	e := map[string]any{"kind": "seeded change", "name": m.Name, "needs": m.Needs}
+	tmp, err := os.MkdirTemp("", "sqljsonlint-seed-")
+	if err != nil {
+		e["result"] = "skipped: " + err.Error()
+		return e
+	}
+	defer os.RemoveAll(tmp)
+	scratch := filepath.Join(tmp, "repo")
+	cp := exec.Command("rsync", "-a", "--exclude", ".git", strings.TrimSuffix(*flagRepo, "/")+"/", scratch+"/")
+	if outb, err := cp.CombinedOutput(); err != nil {
+		e["result"] = "skipped: copy failed: " + trunc(string(outb), 200)
+		return e
+	}
+	ap := exec.Command("git", "apply", "--whitespace=nowarn", filepath.Join(dir, "patch.diff"))
+	ap.Dir = scratch
+	if outb, err := ap.CombinedOutput(); err != nil {
+		e["result"] = "skipped: patch no longer applies to the current tree (" + trunc(strings.TrimSpace(string(outb)), 160) + ")"
+		return e
+	}
+	self, _ := os.Executable()
+	ctl := filepath.Join(tmp, "empty.json")
+	_ = os.WriteFile(ctl, []byte(`[{"name":"seed","subs":[],"expect":[]}]`), 0o644)
+	cmd := exec.Command(self, "-mode", "control", "-prop", id, "-control", ctl, "-index", "0", "-repo", scratch, "-verif", *flagVerif)
+	var ob, eb bytes.Buffer
+	cmd.Stdout, cmd.Stderr = &ob, &eb
+	if err := cmd.Run(); err != nil {
+		e["result"] = "skipped: checker failed on the scratch copy: " + trunc(eb.String(), 200)
+		return e
+	}
+	var cr controlResult
+	if err := json.Unmarshal(ob.Bytes(), &cr); err != nil {
+		e["result"] = "skipped: unparsable result"
+		return e
+	}
+	if cr.LoadError != "" {
+		e["result"] = "analysis failed on the changed tree (counts as an alarm): " + trunc(cr.LoadError, 200)
+		return e
+	}
+	var ks []string
+	for _, v := range cr.Violations {
+		if kf.match(id, &v) == nil {
+			ks = append(ks, v.Rule+": "+v.Key)
+		}
+	}
+	sort.Strings(ks)
+	if len(ks) > 0 {
+		e["result"] = "caught"
+		if len(ks) > 6 {
+			ks = append(ks[:6], fmt.Sprintf("… %d more", len(ks)-6))
+		}
+		e["reported"] = ks
+	} else {
+		e["result"] = "MISSED"
+	}
+	return e
+}
+
+// crossRef compares generic tools with the rule's own site list (thorough).
+func crossRef(p *Prog, id string, all []Ob) ([]map[string]any, []string) {
+	var out []map[string]any
+	var problems []string
+	hasPairC := false
+	for _, r := range props[id].Rules {
+		if r == "R-PAIR-C" || r == "R-PAIR-C-HARD" {
+			hasPairC = true
+		}
+	}
+	if hasPairC {
+		cmd := exec.Command("errcheck", "-blank", "-ignoretests", "./path/exec")
+		cmd.Dir = p.RepoDir
+		cmd.Env = p.Env
+		b, _ := cmd.CombinedOutput()
+		seen := map[string]bool{}
+		for _, ob := range all {
+			if strings.HasPrefix(ob.Rule, "R-PAIR-C") {
+				seen[ob.Site] = true
+			}
+		}
+		n, unknown := 0, 0
+		for _, ln := range strings.Split(string(b), "\n") {
+			f := strings.Fields(ln)
+			if len(f) == 0 || !strings.Contains(f[0], ".go:") {
+				continue
+			}
+			parts := strings.Split(f[0], ":")
+			if len(parts) < 2 {
+				continue
+			}
+			site := parts[0] + ":" + parts[1]
+			n++
+			if !seen[site] {
+				// only calls returning an error of the module matter; errcheck
+				// also lists stdlib calls, which the rule leaves alone on purpose
+				if strings.Contains(ln, "exec.") || strings.Contains(ln, "execute") {
+					unknown++
+					problems = append(problems, "cross-reference: errcheck -blank reports a discarded error at "+site+" that R-PAIR-C has no obligation for: "+strings.TrimSpace(ln))
+				}
+			}
+		}
+		out = append(out, map[string]any{"tool": "errcheck -blank -ignoretests ./path/exec", "reported": n, "not_covered_by_rule": unknown})
+	}
+	return out, problems
 }
